@@ -301,3 +301,29 @@ package mcp
 //@   requires[C07] done != nil && !closed(done)
 //@ func sseClientTransport.close
 //@   nosweep close
+
+// ---------------------------------------------------------------------------
+// reader loops — C06/C07: every iteration consumes input, and the loop is left
+// only because the input or the context ended (or the transport was closed)
+
+//@ func stdioTransport.readNextLine
+//@   trusted
+//@   modifies rdprog, rddead
+//@   ensures ret1 == nil ==> rdprog == old(rdprog) + 1 && rddead == old(rddead)
+//@   ensures ret1 != nil ==> rdprog == old(rdprog) && (rddead || ctxdone(ctx))
+//@ func stdioTransport.processInputStream
+//@   loop 1 increases[C06 every-iteration-consumes-a-line] rdprog
+//@   ensures[C06 server-stops-reading-only-when-input-or-context-ended] rddead || ctxdone(ctx)
+//@
+//@ func stdioClientTransport.readLoop
+//@   loop 1 increases[C07 every-iteration-consumes-input] rdprog
+//@   ensures[C07 reader-stops-only-when-input-ended-or-closed] rddead || t.closed
+//@ func sseClientTransport.readSSE
+//@   loop 1 increases[C07 every-iteration-consumes-a-line] rdprog
+//@ func streamableHTTPClientTransport.handleGetSSEEvents
+//@   loop 1 increases[C07 every-iteration-consumes-a-line] rdprog
+//@   ensures[C07 listening-stream-reader-stops-only-when-stream-or-context-ended] rddead || result != nil
+//@ func streamableHTTPClientTransport.handleSSEResponse
+//@   loop 3 increases[C07 every-iteration-consumes-a-line] rdprog
+//@ func stdioClientTransport.stderrLoop
+//@   waive no-small-token-limit
